@@ -39,6 +39,18 @@ Correspondence streams (canonical digest of BOTH indexes compared with the model
                   burst straddles every power of two >= 2^8 and every multiple of 2^16 of the
                   scheduler's life; after every burst the next hop must be the LAST sender and
                   traffic sent afterwards must arrive at that router's station.
+  bip-simple / bip-foreign / bip-random-* (wave 5): the same NSAP+NSE attached through BACnet/IP:
+                  (a) BIPSimple on the routers' subnet, (b) BIPForeign on another subnet,
+                  registered with a real BIPBBMD on the routers' subnet (vlan.IPNetwork/IPNode +
+                  IPRouter + AnnexJCodec as in tests/test_bvll/helpers.py; routers 1..3 are
+                  BIPSimple stations 192.168.6.11-13).  I-Am-Router-To-Network and routed
+                  broadcasts revealing a source network reach the foreign device as
+                  Forwarded-NPDUs.  Every ordered pair of the 24 frame letters (burst or
+                  sequence), then "forget the first router by its B/IP address", then the next
+                  hop of every destination read at the receiving station; random length-300
+                  burst histories.  Oracle/model as in the vlan streams: the next hop is the
+                  ROUTER that announced (its own address, never the relaying BBMD), newest wins,
+                  traffic afterwards is unicast to that router.
 
 Implementation-side oracle (independent of the model), after every operation:
   * Coherent, evaluated on the real object by identity:
@@ -70,7 +82,9 @@ RULE = ("cache: all op sequences <=4 (quick) / <=5 (thorough) over 40 letters {l
         "histories over three adapter configurations; the same node on real vlan LANs through the real "
         "TaskManager under virtual time: all ordered pairs of 48 frame letters as same-instant bursts, random "
         "burst histories, one long-lived process (>=70k / >=140k scheduled deliveries) with competing "
-        "announcements straddling every 2^k>=256 and every multiple of 2^16 of the task counter. distinct = distinct (stream, op-kind word or model "
+        "announcements straddling every 2^k>=256 and every multiple of 2^16 of the task counter; the same node "
+        "attached through BIPSimple and through BIPForeign+real BIPBBMD (IP vlan): all ordered pairs of 24 "
+        "frame letters + forget-by-address + next-hop probes, random burst histories. distinct = distinct (stream, op-kind word or model "
         "branch path, final shape class #routers/#paths) signatures; trivial = empty history")
 TRUSTED = ["lean/BacVerif/Model/RouterCache.lean is a hand transcription of RouterInfoCache and of the "
            "learning paths in NetworkServiceAccessPoint/NetworkServiceElement (after the two C19 fixes); "
@@ -162,6 +176,8 @@ NODE_CFGS = {
     "unknown": {"ports": [[5, 1], [None, None]], "adapters": [[5, 0], [None, 1]], "local": 0},
     # a plain (non-router) node with a learned network
     "single": {"ports": [[5, 0]], "adapters": [[5, 0]], "local": 0},
+    # a plain node with a configured network (the BACnet/IP attachments)
+    "bip": {"ports": [[5, 1]], "adapters": [[5, 0]], "local": 0},
 }
 
 # ------------------------------------------------------------------ real cache side
@@ -178,7 +194,20 @@ def addr(i):
 
 
 def aid(address):
-    return address.addrAddr[0]
+    """router id: the MAC of a one-octet station, or (last octet of the IPv4 address - 10) of a
+    B/IP station (routers 1..3 live at 192.168.6.11-13; anything else - e.g. the BBMD - maps to
+    an id no model reply ever contains)"""
+    b = address.addrAddr
+    return b[0] if len(b) == 1 else b[3] - 10
+
+
+def ipaddr(i, subnet=6):
+    key = ("ip", subnet, i)
+    a = _ADDR.get(key)
+    if a is None:
+        from bacpypes.pdu import Address
+        a = _ADDR[key] = Address("192.168.%d.%d/24" % (subnet, i + 10))
+    return a
 
 
 def nkey(s):
@@ -228,14 +257,15 @@ def cache_digest(c):
             dn = ri.dnets
             body = ",".join(["%d=%d" % (d, dn[d]) for d in (sorted(dn) if len(dn) > 1 else dn)])
             st = ri.__dict__.get("status")
-            items.append("%d(%s)%s" % (a.addrAddr[0], body, "" if st is None else "~%d" % st))
+            b = a.addrAddr
+            items.append("%d(%s)%s" % (b[0] if len(b) == 1 else b[3] - 10, body, "" if st is None else "~%d" % st))
         parts.append(nstr(s) + "{" + ";".join(items) + "}")
     pi = c.path_info
     if len(pi) > 1:
         ps = sorted([(nkey(k[0]), k[1], k[0], ri) for k, ri in pi.items()], key=lambda t: t[:2])
     else:
         ps = [(0, k[1], k[0], ri) for k, ri in pi.items()]
-    return "".join(parts) + "|" + ",".join(["%s/%d>%d" % (nstr(s), d, ri.address.addrAddr[0])
+    return "".join(parts) + "|" + ",".join(["%s/%d>%d" % (nstr(s), d, aid(ri.address))
                                             for _k, d, s, ri in ps])
 
 
@@ -664,6 +694,8 @@ class RealNode:
         elif cfg_name == "single":
             self._add_port(None, addr(100))
             self.deliver(0, 1, bytes([1, 0x80, 0x13]) + be16(5) + b"\0", True)
+        elif cfg_name == "bip":
+            self._add_port(5, addr(100))
         else:
             raise core.Infra("bad node configuration %r" % (cfg_name,))
         del self.log[:]
@@ -678,6 +710,10 @@ class RealNode:
         K = self.K
         pdu = K["PDU"](data, source=addr(src), destination=K["LocalBroadcast"]() if bcast else addr(100))
         self.wires[port].response(pdu)
+
+    def raddr(self, i):
+        """the address router i has on this node's network"""
+        return addr(i)
 
     def port_index(self, adapter):
         for i, p in enumerate(self.ports):
@@ -700,7 +736,7 @@ class RealNode:
             elif k == "nni":
                 self.deliver(ev[1], 1, bytes([1, 0x80, 0x13]) + be16(ev[2]) + bytes([ev[3]]), bool(ev[4]))
             elif k == "forget":
-                self.sap.delete_router_references(ev[1], None if ev[2] is None else addr(ev[2]),
+                self.sap.delete_router_references(ev[1], None if ev[2] is None else self.raddr(ev[2]),
                                                   None if ev[3] is None else list(ev[3]))
             elif k == "orig":
                 req = K["WhoIsRequest"](destination=K["RemoteStation"](ev[1], bytes([ev[2]])))
@@ -718,7 +754,9 @@ class RealNode:
         """decode an emitted frame by hand: [kind, port, ...]"""
         port, dest, data = f
         K = self.K
-        if dest.addrType == K["Address"].localBroadcastAddr:
+        if isinstance(dest, int):           # (a rig that names the receiving station by its id)
+            dst = dest
+        elif dest.addrType == K["Address"].localBroadcastAddr:
             dst = None
         elif dest.addrType == K["Address"].localStationAddr:
             dst = dest.addrAddr[0]
@@ -1103,6 +1141,214 @@ class VlanNode(RealNode):
         return frames, (raised[0] if raised else None)
 
 
+class BipNode(VlanNode):
+    """the same NSAP+NSE attached through BACnet/IP: mode "simple" = BIPSimple on the routers' subnet,
+    mode "foreign" = BIPForeign on another subnet, registered with a real BIPBBMD on the routers'
+    subnet.  UDP is replaced by vlan.IPNetwork/IPNode (+ IPRouter between the subnets) exactly as in
+    tests/test_bvll/helpers.py; AnnexJCodec, BIPSimple/BIPForeign/BIPBBMD, the TaskManager and
+    core.run are the repository's.  Routers 1..3 are BIPSimple stations at 192.168.6.11-13."""
+
+    def __init__(self, mode):
+        self.mode = mode
+        VlanNode.__init__(self, "bip", lean=True)
+
+    def _mux(self, address, lan):
+        from bacpypes.comm import Client, Server
+        from bacpypes.pdu import Address, PDU, LocalBroadcast, unpack_ip_addr
+        from bacpypes.vlan import IPNode
+        K = self.K
+
+        class Mux(Client, Server):
+            """stand-in for UDPMultiplexer (tests/test_bvll/helpers.py: FauxMultiplexer)"""
+
+            def __init__(self):
+                Client.__init__(self)
+                Server.__init__(self)
+                self.unicast_tuple = address.addrTuple
+                self.broadcast_tuple = address.addrBroadcastTuple
+                K["bind"](self, IPNode(address, lan))
+
+            def indication(self, pdu):
+                if pdu.pduDestination.addrType == Address.localBroadcastAddr:
+                    dest = self.broadcast_tuple
+                elif pdu.pduDestination.addrType == Address.localStationAddr:
+                    dest = unpack_ip_addr(pdu.pduDestination.addrAddr)
+                else:
+                    raise RuntimeError("invalid destination address type")
+                self.request(PDU(pdu, source=self.unicast_tuple, destination=dest))
+
+            def confirmation(self, pdu):
+                src = Address(pdu.pduSource)
+                dest = LocalBroadcast() if pdu.pduDestination == self.broadcast_tuple else Address(pdu.pduDestination)
+                self.response(PDU(pdu, source=src, destination=dest))
+        return Mux()
+
+    def _add_port(self, net, address):
+        from bacpypes.vlan import IPNetwork, IPRouter
+        from bacpypes.comm import Client
+        from bacpypes.pdu import Address
+        from bacpypes.bvllservice import BIPSimple, BIPForeign, BIPBBMD, AnnexJCodec
+        K = self.K
+        bind = K["bind"]
+        lan6, lan5 = IPNetwork("ip6"), IPNetwork("ip5")
+        self.iprouter = IPRouter()
+        self.iprouter.add_network(Address("192.168.5.1/24"), lan5)
+        self.iprouter.add_network(Address("192.168.6.1/24"), lan6)
+        log = self.log
+        bcast_type = Address.localBroadcastAddr
+        me = self.me = ipaddr(92, 6) if self.mode == "simple" else ipaddr(92, 5)
+
+        class Tap(Client):
+            """the network layer of a plain B/IP station: says what it is told, records what the node
+            under test sent to it (unicast) or to everybody (the listener)"""
+
+            def __init__(self, ident, listener):
+                Client.__init__(self)
+                self.ident = ident
+                self.listener = listener
+
+            def confirmation(self, pdu):
+                if pdu.pduSource != me:
+                    return
+                if pdu.pduDestination.addrType == bcast_type:
+                    if self.listener:
+                        log.append((0, pdu.pduDestination, bytes(pdu.pduData)))
+                elif not self.listener:
+                    log.append((0, self.ident, bytes(pdu.pduData)))
+
+        taps = {}
+        for a in ROUTERS + [99 - 10]:
+            t = Tap(a, a == 89)
+            bind(t, BIPSimple(), AnnexJCodec(), self._mux(ipaddr(a, 6), lan6))
+            taps[a] = t
+        taps[99] = taps.pop(89)
+        self.taps.append(taps)
+        # the BBMD of subnet 6 (always there; only the foreign attachment needs it)
+        bbmd_addr = ipaddr(-7, 6)            # 192.168.6.3
+        self.bbmd = BIPBBMD(bbmd_addr)
+        self.bbmd.add_peer(Address("%s/32:%d" % bbmd_addr.addrTuple))
+        bind(Tap(-7, False), self.bbmd, AnnexJCodec(), self._mux(bbmd_addr, lan6))
+        # the node under test
+        if self.mode == "simple":
+            self.bip = BIPSimple()
+            bind(self.bip, AnnexJCodec(), self._mux(me, lan6))
+        else:
+            self.bip = BIPForeign()
+            bind(self.bip, AnnexJCodec(), self._mux(me, lan5))
+        self.sap.bind(self.bip, net, me)
+        self.wires.append(self.bip)
+        self.ports.append(self.bip.serverPeer)
+        if self.mode == "foreign":
+            self.bip.register(Address("192.168.6.3"), 60000)
+            self.flush()
+            if self.bip.registrationStatus != 0:
+                raise core.Infra("foreign device registration failed: %r" % (self.bip.registrationStatus,))
+
+    def raddr(self, i):
+        return ipaddr(i, 6)
+
+    def deliver(self, port, src, data, bcast):
+        K = self.K
+        # traffic routed from a remote network that reveals its source network is sent as a broadcast
+        # here (over B/IP that is what reaches a foreign device through its BBMD)
+        bcast = bcast or bool(data[1] & 0x08)
+        pdu = K["PDU"](data, destination=K["LocalBroadcast"]() if bcast else self.me)
+        self.taps[port][src].request(pdu)
+        if not self.hold:
+            self.flush()
+
+    def flush(self):
+        # the BBMD and the registration keep recurring tasks: run what is due now, time stands still
+        if not self.vt.run(until=self.vt.now):
+            raise core.Infra("scheduler did not become quiet")
+        self.errors += [err_kind_named(n, m) for n, m in self.vt.errors]
+        if self.vt.errors:
+            self.last_exc = RuntimeError("%s: %s" % self.vt.errors[0])
+        del self.vt.errors[:]
+
+
+def bip_history(i, j, al):
+    """letters i, j (as one burst when i+j is even), forget the router of the first letter by its
+    address, then the next hop of every destination"""
+    a, b = al[i], al[j]
+    bursts = [[a, b]] if (i + j) % 2 == 0 else [[a], [b]]
+    bursts.append([["forget", 5, a[2], None]])
+    bursts += [[["orig", d, PROBE_DST]] for d in DNETS]
+    return bursts
+
+
+def bip_letters():
+    return [e for e in frame_letters() if e[1] == 0]
+
+
+def run_bip_histories(ctx, stream, mode, histories, model):
+    done = []
+    legend = {"1": "192.168.6.11 (router 1)", "2": "192.168.6.12 (router 2)", "3": "192.168.6.13 (router 3)",
+              "-7": "192.168.6.3 (the BBMD)", "node": "192.168.%d.102" % (6 if mode == "simple" else 5)}
+    for bursts in histories:
+        case = {"stream": stream, "cfg": "bip", "attach": mode, "bursts": bursts, "addresses": legend}
+        node = BipNode(mode)
+        nf = len(ctx.failures)
+        a = run_vlan_history(ctx, case, "bip", bursts, node=node, m={})
+        if len(ctx.failures) > nf:
+            # where does traffic go now?  (read at the receiving B/IP station, part of the failure record)
+            after = {str(d): node.step(["orig", d, PROBE_DST])[0] for d in DNETS}
+            for rec in ctx.failures[nf:]:
+                rec["traffic_afterwards"] = after
+                rec["what"] += "; traffic sent afterwards (dnet -> frames [kind, adapter, station, DNET]): %r" % (after,)
+        done.append((bursts[:len(a)], a))
+    if model:
+        res = model_bursts_many("bip", [bs for bs, _a in done])
+        for (bs, a), (init, b) in zip(done, res):
+            cases = [{"stream": stream, "cfg": "bip", "attach": mode, "bursts": bs[:i + 1]} for i in range(len(bs))]
+            ctx.compare_stream(stream, cases, a, b, sig=burst_sig)
+        if res and res[0][0].get("d") != initial_digest("bip"):
+            ctx.disagree("node-config", {"cfg": "bip"}, {"d": initial_digest("bip")}, res[0][0])
+    else:
+        ctx.count(stream, n=sum(len(a) for _bs, a in done))
+    return done
+
+
+def shard_bip_pairs(ctx, spec):
+    """every ordered pair of the 24 frame letters of one adapter (12 I-Am-Router-To-Network, 12 routed
+    broadcasts), then forget + probes, on a node attached through BIPSimple / BIPForeign+BBMD"""
+    al = bip_letters()
+    hs = [bip_history(i, j, al) for i in spec["firsts"] for j in range(len(al))]
+    run_bip_histories(ctx, "bip-" + spec["mode"], spec["mode"], hs, spec["model"])
+
+
+def gen_bip_bursts(rng, length):
+    bursts = gen_random_bursts(rng, length, "bip")
+    for b in bursts:
+        for ev in b:
+            if ev[0] == "orig" and ev[1] == 5:
+                ev[1] = 6            # (a six-octet station address would be needed on the local network)
+    return bursts
+
+
+def shard_bip_random(ctx, spec):
+    for i in range(spec["first"], spec["first"] + spec["count"]):
+        rng = ctx.sub_rng("c19-bip-%d" % i)
+        mode = ["foreign", "simple"][i % 2]
+        bursts = gen_bip_bursts(rng, 300)
+        nf = len(ctx.failures)
+        done = run_bip_histories(ctx, "bip-random-" + mode, mode, [bursts], spec["model"])
+        if len(ctx.failures) > nf:
+            rec = ctx.failures[nf]
+
+            def still(bs, kind=rec["kind"]):
+                sub = core.Ctx("C19", "quick", 0)
+                run_vlan_history(sub, {"stream": "shrink"}, "bip", bs, node=BipNode(mode), m={})
+                return any(f["kind"] == kind for f in sub.failures)
+            small = shrink(rec["case"]["bursts"], still, budget=300)
+            del ctx.failures[nf:]
+            run_vlan_history(ctx, {"stream": "bip-random-" + mode, "cfg": "bip", "attach": mode,
+                                   "shrunk_from": len(bursts)}, "bip", small, node=BipNode(mode), m={})
+        if i < 2:
+            ctx.sample({"stream": "bip-random-" + mode, "bursts": bursts[:4],
+                        "digest_after_4": done[0][1][min(3, len(done[0][1]) - 1)]["d"]})
+
+
 def is_frame_event(ev):
     return ev[0] in ("iam", "routed")
 
@@ -1388,7 +1634,10 @@ def shard_longrun(ctx, spec):
 def run_case(ctx, case, stream=None):
     """a self-contained case: cache op list or node history"""
     stream = stream or case.get("stream") or "replay"
-    if "bursts" in case:
+    if "bursts" in case and case.get("attach"):
+        ctx_model = bool(ctx.model_ok)
+        run_bip_histories(ctx, stream, case["attach"], [case["bursts"]], ctx_model)
+    elif "bursts" in case:
         cfg = case.get("cfg", "learned")
         if case.get("installs_before") is not None:
             # a burst late in a long-lived process: bring the scheduler of THIS process to the same age
@@ -1444,6 +1693,14 @@ def run(ctx):
     nvl = 8 if quick else 96
     for i in range(0, nvl, 2):
         specs.append(("shard_vlan_random", {"first": i, "count": 2, "model": model}))
+    # the same node attached through BACnet/IP (BIPSimple; BIPForeign registered with a real BBMD)
+    nbl = len(bip_letters())
+    for mode in ("foreign", "simple"):
+        for i in range(0, nbl, 4):
+            specs.append(("shard_bip_pairs", {"mode": mode, "firsts": list(range(i, min(i + 4, nbl))), "model": model}))
+    nbr = 4 if quick else 64
+    for i in range(0, nbr, 2):
+        specs.append(("shard_bip_random", {"first": i, "count": 2, "model": model}))
     # exhaustive cache histories
     if quick:
         specs += [("shard_enum", s) for s in enum_specs("a40", 40, 4, 2, 25, model, "enum")]
@@ -1467,7 +1724,8 @@ def run(ctx):
     ctx.exhaustive = True
     ctx.extra["exhaustive_history_length"] = {"cache": 4 if quick else 5, "cache_wide": 2 if quick else 3,
                                               "node40": 3 if quick else 4, "node66": 2}
-    for st in ("enum", "random", "node-enum40", "node-random", "vlan-burst-pairs", "vlan-bursts", "vlan-longrun"):
+    for st in ("enum", "random", "node-enum40", "node-random", "vlan-burst-pairs", "vlan-bursts", "vlan-longrun",
+               "bip-foreign", "bip-simple", "bip-random-foreign", "bip-random-simple"):
         ctx.sample({"stream": st, "count": ctx.streams.get(st, 0)})
 
 
